@@ -107,7 +107,7 @@ func gen(rt *rapid.T) any {
 			first = p
 		}
 		t := TaskRec{Prog: p}
-		t.Front = gencommon.Front(rt, gencommon.FrontSpec{Faults: []string{"discard_ref", "abort_stmt", "abort_init", "callex_err"}, MaxFaults: 2, Constructs: []string{"vblock", "inline_closure", "bigint_op", "unit_lit", "unsafe_ref"}, FileAssign: false})
+		t.Front = gencommon.Front(rt, gencommon.FrontSpec{Faults: []string{"discard_ref", "abort_stmt", "abort_init", "callex_err"}, MaxFaults: 2, Constructs: []string{"vblock", "inline_closure", "bigint_op", "unit_lit", "unsafe_ref", "bti_call"}, FileAssign: false})
 		t.Coarse = rapid.IntRange(0, 3).Draw(rt, "coarse") != 0
 		np := rapid.IntRange(0, 4).Draw(rt, "npre")
 		for j := 0; j < np; j++ {
